@@ -65,13 +65,15 @@ Definition load_fsm (ob : outboard) (node : N) : res io_kind (option (hash * has
 (* OutboardMut::save (sync and fsm behave alike on byte vectors) *)
 Definition save (ob : outboard) (node : N) (l r : hash) : res io_kind outboard :=
   match ob_k ob with
-  | EmptyOb => if is_relevant_for_outboard (ob_tree ob) node then Ok ob else Err KInvalidInput
+  | EmptyOb => if level node <? tbs (ob_tree ob) then Ok ob
+               else if is_relevant_for_outboard (ob_tree ob) node then Ok ob else Err KInvalidInput
   | PreIO | PostIO =>
       match ob_offset ob node with
       | None => Ok ob
       | Some o => Ok (mkOb (ob_k ob) (ob_root ob) (ob_tree ob) (write_at (ob_data ob) (o * 64) (combine_pair l r)))
       end
   | PreMem | PostMem =>
+      if level node <? tbs (ob_tree ob) then Ok ob else
       match ob_offset ob node with
       | None => Err KInvalidInput
       | Some o =>
